@@ -82,6 +82,27 @@ def check_pure(rep, tier, rng, drv, run):
     rep.cov["input_distribution"] = dist
 
 
+def check_big(rep, tier, rng):
+    """Lengths beyond 2^32 ("every input, length"): size_t vs 32-bit arithmetic in the length handling.
+    Uses the optimised (non-sanitizer) build: 4 GiB of mostly untouched zero pages."""
+    try:
+        drv = build_driver("h_util", flavour="plain", libs=["-lxxhash"])
+    except vlib.BuildError as e:
+        rep.tie_broken("plain-flavour harness does not build: " + str(e)[:300]); return
+    sizes = [(1 << 32) + 29] if tier == "quick" else [(1 << 32) + 29, (1 << 32) - 3, (1 << 33) + 8 * 7 + 5]
+    for n in sizes:
+        line = "crcbig %d %d" % (n, rng.randrange(1, 1 << 30))
+        out, rc, err = vlib.run_lines(drv, [line], timeout=900)
+        rep.count(line)
+        t = out[0].split() if out else []
+        if rc != 0 or len(t) != 4 or t[0] != "OK":
+            rep.tie_broken("crcbig could not run (rc=%s): %s %s" % (rc, out, err[-200:]), line)
+        elif not (t[1] == t[2] == t[3]):
+            rep.violation("one-shot CRC of a %d-byte buffer: carquet %s, zlib %s, carquet update chain %s" % (n, t[1], t[2], t[3]),
+                          {"case": line, "impl": out[0], "flavour": "plain"})
+    rep.cov.setdefault("input_distribution", {})["crc_over_4GiB"] = len(sizes)
+
+
 def run(tier):
     rep = Report(PID, tier)
     rng = random.Random(vlib.SEED * 7919 + 14)
@@ -100,6 +121,7 @@ def run(tier):
         rep.tie_broken("harness does not build against the current tree: " + str(e)[:500])
         return rep.finish()
     check_pure(rep, tier, rng, drv, run_)
+    check_big(rep, tier, rng)
     try:
         import c14_file
         c14_file.check_files(rep, tier, rng)
@@ -110,16 +132,19 @@ def run(tier):
 
 def replay(path):
     j = json.loads(Path(path).read_text())
+    if "file_case" in j.get("replay", {}):
+        import c14_file
+        return c14_file.replay_file(j["replay"])
     case = j.get("replay", {}).get("case")
     if not case:
         print(json.dumps(j, indent=1))
         return 1
-    drv = build_driver("h_util", libs=["-lxxhash"])
-    out, rc, err = vlib.run_lines(drv, [case])
+    drv = build_driver("h_util", libs=["-lxxhash"], flavour=j["replay"].get("flavour", "san"))
+    out, rc, err = vlib.run_lines(drv, [case], timeout=900)
     print("case:", case)
     print("implementation:", out, "rc", rc)
     if err:
         print(err[-2000:])
     t = out[0].split() if out else []
-    bad = rc != 0 or not t or t[0] != "OK" or (len(t) == 3 and t[1] != t[2])
+    bad = rc != 0 or not t or t[0] != "OK" or (len(t) == 3 and t[1] != t[2]) or (len(t) == 4 and not (t[1] == t[2] == t[3]))
     return 1 if bad else 0
